@@ -1,0 +1,39 @@
+//go:build verif
+
+package lnd
+
+import (
+	"context"
+
+	"github.com/lightningnetwork/lnd/lnrpc"
+	"github.com/lightningnetwork/lnd/lnrpc/routerrpc"
+	"github.com/lightningnetwork/lnd/routing"
+)
+
+// Verification hooks (build tag verif, add-only): reach the unexported
+// payment request builder and construct a Client over injected (fake) lnd RPC
+// clients, so PayInvoiceViaChannel / RebalancePayment can be observed
+// without a node.
+
+// VerifBlockPadding is lnd's routing.BlockPadding as used by the builder.
+const VerifBlockPadding = routing.BlockPadding
+
+// VerifBuildDirectClaimPaymentRequest calls buildDirectClaimPaymentRequest unchanged.
+func VerifBuildDirectClaimPaymentRequest(
+	payreq string,
+	decoded *lnrpc.PayReq,
+	channel *lnrpc.Channel,
+	maxTotalCLTVDelta uint32,
+) (*routerrpc.SendPaymentRequest, error) {
+	return buildDirectClaimPaymentRequest(payreq, decoded, channel, maxTotalCLTVDelta)
+}
+
+// VerifNewClient returns a Client with only the lnd RPC clients set.
+func VerifNewClient(lndClient lnrpc.LightningClient, routerClient routerrpc.RouterClient) *Client {
+	return &Client{
+		lndClient:            lndClient,
+		routerClient:         routerClient,
+		ctx:                  context.Background(),
+		invoiceSubscriptions: make(map[string]interface{}),
+	}
+}
